@@ -1,1 +1,7 @@
+pub mod aln;
+pub mod cram;
+pub mod layout;
 pub mod payload;
+pub mod sorted;
+pub mod text;
+pub mod var;
